@@ -90,20 +90,27 @@ static void part_cells() {
 // thread histories: per-thread FFT state is released when the thread exits
 static void part_threads() {
     IntPolynomial *a = new_IntPolynomial(1024); TorusPolynomial *b = new_TorusPolynomial(1024); for (int i = 0; i < 1024; i++) { a->coefs[i] = i % 7 - 3; b->coefsT[i] = i * 2654435; }
-    auto use = [&](int times) { TorusPolynomial *r = new_TorusPolynomial(1024); for (int q = 0; q < times; q++) torusPolynomialMultFFT(r, a, b); delete_TorusPolynomial(r); };
-    use(1); // main thread's processor
-    // histories: sequences over {spawn+use k times+exit} for 1..3 concurrent threads
-    for (int conc = 1; conc <= 3; conc++) for (int uses : {0, 1, 3}) {
-        std::string key = fmt("threads/concurrent=%d/uses=%d", conc, uses);
+    // a complete tiny key set for gate evaluation on the worker threads (k = 2 so that every per-call temporary has its larger shape)
+    uint32_t sd[2] = {16, 16}; tfhe_random_generator_setSeed(sd, 2);
+    LweParams *lp = new_LweParams(6, 1e-9, 0.01); TLweParams *tp = new_TLweParams(1024, 2, 1e-10, 0.01); TGswParams *gp = new_TGswParams(2, 10, tp); TFheGateBootstrappingParameterSet *ps = new TFheGateBootstrappingParameterSet(4, 2, lp, gp);
+    SK *sk = new_random_gate_bootstrapping_secret_keyset(ps); LweSample *in = new_gate_bootstrapping_ciphertext_array(3, ps); for (int q = 0; q < 3; q++) bootsSymEncrypt(in + q, q & 1, sk);
+    auto use_fft = [&](int times) { TorusPolynomial *r = new_TorusPolynomial(1024); for (int q = 0; q < times; q++) torusPolynomialMultFFT(r, a, b); delete_TorusPolynomial(r); };
+    auto use_gates = [&](int times) { LweSample *r = new_gate_bootstrapping_ciphertext(ps); for (int q = 0; q < times; q++) { bootsNAND(r, in, in + 1, &sk->cloud); bootsMUX(r, in, in + 1, in + 2, &sk->cloud); } delete_gate_bootstrapping_ciphertext(r); };
+    auto use_misc = [&](int times) { for (int q = 0; q < times; q++) { TorusPolynomial *r = new_TorusPolynomial(1024); torusPolynomialMultKaratsuba(r, a, b); IntPolynomial *d = new_IntPolynomial_array(2, 1024); tGswTorus32PolynomialDecompH(d, r, gp); delete_IntPolynomial_array(2, d); delete_TorusPolynomial(r);
+        LweSample *u = new_LweSample(&tp->extracted_lweparams); tfhe_bootstrap_woKS_FFT(u, sk->cloud.bkFFT, 5, in); tfhe_bootstrap_woKS(u, sk->cloud.bk, 5, in); delete_LweSample(u); std::ostringstream os; export_lweSample_toStream(os, in, lp); } };
+    use_fft(1); use_gates(1); use_misc(1); // main thread's per-thread state
+    struct W { const char *name; std::function<void(int)> f; } works[] = {{"fft", use_fft}, {"gates", use_gates}, {"misc", use_misc}};
+    for (auto &w : works) for (int conc = 1; conc <= 3; conc++) for (int uses : {0, 1, 3}) {
+        std::string key = fmt("threads/work=%s/concurrent=%d/uses=%d", w.name, conc, uses);
         if (!take(key)) continue; if (deadline()) return; current(key);
         Fate f = forked([&] { long base_blocks = 0, base_bytes = 0;
-            for (int round = 0; round < 6; round++) { std::vector<std::thread> ts; for (int t = 0; t < conc; t++) ts.emplace_back([&] { use(uses); }); for (auto &t : ts) t.join();
+            for (int round = 0; round < 6; round++) { std::vector<std::thread> ts; for (int t = 0; t < conc; t++) ts.emplace_back([&] { w.f(uses); }); for (auto &t : ts) t.join();
                 if (round == 1) { base_blocks = vf_live_blocks; base_bytes = vf_live_bytes; }
-                if (round > 1 && vf_guard_mode() >= 0 && (vf_live_blocks > base_blocks || vf_live_bytes > base_bytes + 4096)) { violation(key, fmt("after %d create/use/exit rounds of %d thread(s): %ld live heap blocks (%ld bytes), after 2 rounds: %ld (%ld bytes): per-thread FFT state is not released at thread exit", round + 1, conc, (long)vf_live_blocks, (long)vf_live_bytes, base_blocks, base_bytes)); break; } }
-            eval(6); if (uses) nontrivial(1); outcome(mix(conc, uses)); }, 300);
+                if (round > 1 && vf_guard_mode() >= 0 && (vf_live_blocks > base_blocks || vf_live_bytes > base_bytes + 4096)) { violation(key, fmt("after %d create/use/exit rounds of %d thread(s) (%s): %ld live heap blocks (%ld bytes), after 2 rounds: %ld (%ld bytes): per-thread state is not released at thread exit", round + 1, conc, w.name, (long)vf_live_blocks, (long)vf_live_bytes, base_blocks, base_bytes)); break; } }
+            eval(6); if (uses) nontrivial(1); outcome(mix(conc, uses)); }, 600);
         if (f.died()) violation(key, "process died: " + fate_str(f) + " " + f.text.substr(0, 400));
     }
-    sample("threads/concurrent=3/uses=1: 6 rounds of {3 threads: first FFT use constructs the thread_local processor, exit destroys it}; live blocks/bytes after round k+1 <= after round 2");
+    sample("threads/work=gates/concurrent=3/uses=1: 6 rounds of {3 threads: NAND + MUX with a shared k=2 cloud key (first use constructs the thread's FFT processor), exit}; live blocks/bytes after round k+1 <= after round 2");
 }
 
 int main(int argc, char **argv) {
